@@ -235,11 +235,137 @@ theorem zincrby_adds (c : Ctx) (s : State) (k m tok : Bytes) (ms : KMap Flt) (ex
 /-- non-vacuity of `zincrby_adds`: 1.5 + 0.25 -/
 example : (Flt.fin ⟨15, -1⟩).add (Flt.fin ⟨25, -2⟩) = some (Flt.fin ⟨175, -2⟩) := by decide
 
-/-! ### where the full statement fails (model witnesses; each is a class of Known.lean) -/
-
+/-- a state with one database (used by the examples and witnesses below) -/
 def st (es : List (Bytes × Entry)) : State := { dbs := [(0, ⟨es, []⟩)], mem := 0 }
 def c0 : Ctx := { db := 0, now := 1000 }
 def q (n : Int) : Flt := .fin ⟨n, 0⟩
+
+/-! ### counts: ZPOPMIN / ZPOPMAX / ZRANDMEMBER with count 0 (repaired upstream: a zero count used to fall back to 1) -/
+
+/-- **ZPOPMIN / ZPOPMAX key 0 pop nothing**: whatever the sorted set, the reply is the empty array and the state is
+    untouched (`name` is the command word: the statement covers both commands). -/
+theorem zpop_zero_count_pops_nothing (c : Ctx) (s : State) (name k : Bytes) (o : Nat) (ms : KMap Flt) (ex : Option Int)
+    (h : Holds c s k ⟨.zset o ms, ex⟩) :
+    (handleZPop c [name, k, b "0"]).run c s = (s, .done (.ok (b "*0\r\n"))) := by
+  obtain ⟨h1, h2⟩ := h
+  have a0 : atoiErr (b "0") = .ok 0 := by rfl
+  simp [handleZPop, withZSet, keysExist_single, h1, getValues_live _ _ _ _ h1 h2, asZSet?, a0]
+
+/-- … on an absent key too -/
+theorem zpop_zero_count_absent (c : Ctx) (s : State) (name k : Bytes) (h : s.lookup c.db k = none) :
+    (handleZPop c [name, k, b "0"]).run c s = (s, .done (.ok (b "*0\r\n"))) := by
+  have a0 : atoiErr (b "0") = .ok 0 := by rfl
+  simp [handleZPop, withZSet, keysExist_single, h, a0]
+
+/-- a negative count is refused (by SortedSet.Pop) and nothing is popped -/
+theorem zpop_negative_count_refused (c : Ctx) (s : State) (name k : Bytes) (o : Nat) (ms : KMap Flt) (ex : Option Int)
+    (h : Holds c s k ⟨.zset o ms, ex⟩) :
+    (handleZPop c [name, k, b "-1"]).run c s = (s, .done (.err (b "count must be a positive integer"))) := by
+  obtain ⟨h1, h2⟩ := h
+  have a0 : atoiErr (b "-1") = .ok (-1) := by rfl
+  simp [handleZPop, withZSet, keysExist_single, h1, getValues_live _ _ _ _ h1 h2, asZSet?, a0]
+
+/-- a positive count is still honoured: ZPOPMIN k 1 on {a:1, b:2} pops a -/
+example : ((handleZPop c0 [b "zpopmin", b "k", b "1"]).run c0
+      (st [(b "k", ⟨.zset 0 [(b "a", q 1), (b "b", q 2)], none⟩)])).1.lookup 0 (b "k") = some ⟨.zset 0 [(b "b", q 2)], none⟩ := by decide
+
+/-- **ZRANDMEMBER key 0 returns no member**: the reply is the header `*0` followed by none of the members (an empty
+    array), whatever the sorted set, and the state is untouched. -/
+theorem zrandmember_zero_count_empty (c : Ctx) (s : State) (name k : Bytes) (o : Nat) (ms : KMap Flt) (ex : Option Int)
+    (h : Holds c s k ⟨.zset o ms, ex⟩) :
+    (handleZRandMember c [name, k, b "0"]).run c s =
+      (s, .done (if ms.length = 0 then .okPerm (b "*0\r\n") [] else .okPick (b "*0\r\n") 0 false (ms.map (zElem false)))) := by
+  obtain ⟨h1, h2⟩ := h
+  have a0 : atoiOr (b "0") (some (b "count must be an integer")) = .ok 0 := by rfl
+  have m0 : ((0 : Int) == minInt64) = false := by decide
+  have hd : arrHdr 0 = b "*0\r\n" := by decide
+  by_cases hl : ms.length = 0
+  · have : ms = [] := List.eq_nil_of_length_eq_zero hl
+    subst this
+    simp [handleZRandMember, withZSet, keysExist_single, h1, getValues_live _ _ _ _ h1 h2, asZSet?, a0, m0, zArrAnyOrder, hd]
+  · have hne : ms ≠ [] := fun e => hl (by rw [e]; rfl)
+    simp [handleZRandMember, withZSet, keysExist_single, h1, getValues_live _ _ _ _ h1 h2, asZSet?, a0, m0, hd, hl, hne]
+
+/-! ### the option suffix of ZINTER / ZUNION / ZINTERSTORE / ZUNIONSTORE (repaired upstream: AGGREGATE as the last
+    token used to index past the end of the command) -/
+
+/-- the AGGREGATE option answers one of sum / min / max or the error — whatever the command (its result type has no
+    panic) -/
+theorem readAggregate_total (cmd : List Bytes) :
+    readAggregate cmd = .err (b "aggregate must be SUM, MIN, or MAX") ∨
+    ∃ a, readAggregate cmd = .ok a ∧ (a = b "sum" ∨ a = b "min" ∨ a = b "max") := by
+  unfold readAggregate
+  split
+  · exact Or.inr ⟨_, rfl, Or.inl rfl⟩
+  · split
+    · exact Or.inl rfl
+    · split
+      · rename_i ha
+        simp only [Bool.or_eq_true, beq_iff_eq] at ha
+        refine Or.inr ⟨_, rfl, ?_⟩
+        rcases ha with (ha | ha) | ha
+        · exact Or.inl ha
+        · exact Or.inr (Or.inl ha)
+        · exact Or.inr (Or.inr ha)
+      · exact Or.inl rfl
+
+/-- **AGGREGATE as the last token is a syntax error** -/
+theorem readAggregate_trailing (cmd : List Bytes) (i : Nat)
+    (h : cmd.findIdx? (fun t => eqFold t (b "aggregate")) = some i) (hl : i + 1 = cmd.length) :
+    readAggregate cmd = .err (b "aggregate must be SUM, MIN, or MAX") := by
+  unfold readAggregate
+  rw [h]
+  have : cmd[i + 1]? = none := List.getElem?_eq_none (by omega)
+  simp only [this]
+
+/-- … so the option parser refuses the command: it never answers keys/weights, and never panics (the remaining
+    outcome is a token outside the modelled domain: non-ASCII bytes, a weight beyond 64 bits) -/
+theorem extractKWA_trailing_aggregate (cmd : List Bytes) (i : Nat)
+    (h : cmd.findIdx? (fun t => eqFold t (b "aggregate")) = some i) (hl : i + 1 = cmd.length) :
+    (∃ m, extractKWA cmd = .err m) ∨ (∃ w, extractKWA cmd = .unmod w) := by
+  unfold extractKWA
+  rw [readAggregate_trailing cmd i h hl]
+  split
+  · exact Or.inr ⟨_, rfl⟩
+  · dsimp only
+    split
+    · exact Or.inl ⟨_, rfl⟩
+    · exact Or.inr ⟨_, rfl⟩
+    · exact Or.inl ⟨_, rfl⟩
+
+/-- **No option suffix makes ZINTER / ZUNION panic**: for every argument vector whose command word is not itself an
+    option word (the dispatcher guarantees that), every context and every state, the run ends in a reply, an error
+    or outside the modelled domain — never in a Go panic. -/
+theorem zinter_zunion_never_panic (inter : Bool) (c : Ctx) (cmd : List Bytes) (s : State)
+    (hh : isModifierTok (cmd.headD []) = false) (w : String) :
+    ((handleZCombine inter false c cmd).run c s).2 ≠ .panic w :=
+  noPanic_run c _ s (handleZCombine_noPanic inter false c cmd hh (fun h => by cases h)) w
+
+/-- **… nor ZINTERSTORE / ZUNIONSTORE**, provided the destination is not spelled like the command word (the handler
+    deletes every token equal to the destination from the command before parsing it — class
+    `zstore-destination-dropped-from-operands` — so `ZUNIONSTORE zunionstore weights` parses `[weights]`). -/
+theorem zinterstore_zunionstore_never_panic (inter : Bool) (c : Ctx) (cmd : List Bytes) (s : State)
+    (hh : isModifierTok (cmd.headD []) = false) (hd : cmd.headD [] ≠ cmd.getD 1 []) (w : String) :
+    ((handleZCombine inter true c cmd).run c s).2 ≠ .panic w :=
+  noPanic_run c _ s (handleZCombine_noPanic inter true c cmd hh (fun _ => hd)) w
+
+/-- the proviso on the destination is needed: the filtered command starts with an option word -/
+theorem zstore_destination_is_command_word_witness :
+    ((handleZCombine false true c0 [b "zunionstore", b "zunionstore", b "weights"]).run c0 (st [])).2
+      = .panic "slice bounds out of range [1:0]" := by decide
+
+/-- non-vacuity and the regression inputs: the four commands with AGGREGATE (or WEIGHTS … AGGREGATE) as the last
+    token answer the syntax error and leave the (empty) state alone -/
+example : (handleZCombine false false c0 [b "zunion", b "k", b "aggregate"]).run c0 (st [])
+    = ((st []), .done (.err (b "aggregate must be SUM, MIN, or MAX"))) := by decide
+example : ((handleZCombine true false c0 [b "zinter", b "", b "k3", b "WEIGHTS", b "1", b "0", b "aggregate"]).run c0 (st [])).2
+    = .done (.err (b "aggregate must be SUM, MIN, or MAX")) := by decide
+example : ((handleZCombine true true c0 [b "zinterstore", b "d", b "k3", b "k2", b "weights", b "2", b "10", b "aggregate"]).run c0 (st [])).2
+    = .done (.err (b "aggregate must be SUM, MIN, or MAX")) := by decide
+example : ((handleZCombine false true c0 [b "zunionstore", b "k2", b "k1", b "AGGREGATE"]).run c0 (st [])).2
+    = .done (.err (b "aggregate must be SUM, MIN, or MAX")) := by decide
+
+/-! ### where the full statement fails (model witnesses; each is a class of Known.lean) -/
 
 /-- ZADD without CH counts an update -/
 theorem zadd_counts_updates_witness :
@@ -268,11 +394,6 @@ theorem zstore_destination_dropped_witness :
     ((handleZCombine false true c0 [b "zunionstore", b "k", b "k"]).run c0
       (st [(b "k", ⟨.zset 0 [(b "a", q 1)], none⟩)])).1.lookup 0 (b "k") = some ⟨.zset 0 [], none⟩ := by decide
 
-/-- ZPOPMIN k 0 pops one member -/
-theorem zpop_zero_count_witness :
-    ((handleZPop c0 [b "zpopmin", b "k", b "0"]).run c0
-      (st [(b "k", ⟨.zset 0 [(b "a", q 1), (b "b", q 2)], none⟩)])).1.lookup 0 (b "k") = some ⟨.zset 0 [(b "b", q 2)], none⟩ := by decide
-
 /-- ZLEXCOUNT a b on {a, ab, b} misses ab -/
 theorem zlexcount_substring_witness :
     ((handleZLexCount c0 [b "zlexcount", b "k", b "a", b "b"]).run c0
@@ -282,11 +403,6 @@ theorem zlexcount_substring_witness :
 theorem zincrby_infinite_witness :
     ((handleZIncrBy c0 [b "zincrby", b "k", b "1", b "a"]).run c0
       (st [(b "k", ⟨.zset 0 [(b "a", .pinf)], none⟩)])).2 = .done (.err (b "cannot increment -inf or +inf")) := by decide
-
-/-- AGGREGATE as the last token panics -/
-theorem zcombine_trailing_aggregate_witness :
-    ((handleZCombine false false c0 [b "zunion", b "k", b "aggregate"]).run c0 (st [])).2
-      = .panic "index out of range (AGGREGATE is the last token)" := by decide
 
 /-- ZMSCORE on an absent key answers an empty array -/
 theorem zmscore_absent_witness :
